@@ -1148,6 +1148,10 @@ class W20:
             return {"violations": self.violations, "counters": self.counters, "events": self.events}
         except HangDetected:
             raise Harness("stall: library scan in C20 world")
+        except Exception as ex:  # noqa: BLE001 - scan is not total on these bytes (C01's subject): no tree, nothing to compare
+            self.counters["library_scan_raised"] = 1
+            self.events.append({"nodes": 0, "skipped": f"library scan raised {type(ex).__name__}"})
+            return {"violations": self.violations, "counters": self.counters, "events": self.events}
         ctree = model.canon(tree)
         nn = model.count_nodes(ctree)
         self.counters["nodes_max"] = nn
@@ -1540,7 +1544,7 @@ def main():
     try:
         import resource
 
-        lim = int(os.environ.get("VERIF_WORLD_MEM", str(6 << 30)))
+        lim = int(os.environ.get("VERIF_WORLD_MEM", str(3 << 30)))
         resource.setrlimit(resource.RLIMIT_AS, (lim, lim))
     except Exception:  # noqa: BLE001
         pass
